@@ -123,7 +123,7 @@ def own_record(chk, facts):
         ok = base.endswith(ALLOWED_RECORD_BUILDERS)
         chk.ob(rule, short(name), ok, "%s builds a CedarValueJson::Record; owners are %s (guarded by the reserved-key check, or JSON-to-JSON)" % (short(name), ALLOWED_RECORD_BUILDERS),
                where=f.where(), fn=name, key="%s:%s" % (rule, base))
-    chk.floor(rule, "record builders", len(seen), 3)
+    chk.floor(rule, "record builders", len(seen), 4)
 
 
 def value_hom(chk, facts):
@@ -207,7 +207,7 @@ def value_hom(chk, facts):
             n += 1
             chk.ob(rule, "closure:%s" % jv, want in got, "JSON %s -> %s -> ExprKind::%s -> back to %s; required to contain %s" % (jv, c, k, got, want),
                    where=g.where() if g else None, key="%s:closure:%s" % (rule, jv), sample={"json": jv, "via": c, "back": got})
-    chk.floor(rule, "arms and closures", n, 18)
+    chk.floor(rule, "arms and closures", n, 27)
 
 
 def entity_fields(chk, facts):
@@ -300,7 +300,7 @@ def implicit_forms(chk, facts):
                        "the %s form %s" % (vn, "is accepted under the Extension arm of the expected type" if ok_here else
                                            ("is rejected outside the Extension arm" if not builds else "builds RestrictedExpr::%s outside the Extension arm of the expected type: data of another type is re-read as an extension call" % builds)),
                        where=g.where(), fn=g.name, key="%s:%s:%s" % (rule, vn, "licensed" if ok_here else ",".join(builds)))
-    chk.floor(rule, "implicit-form arms", n, 4)
+    chk.floor(rule, "implicit-form arms", n, 6)
 
 
 def parse_types(chk, facts):
